@@ -227,12 +227,13 @@ CLAIMED.update({
     'C07': dict(
         text='Coq theorems (props/C07.v) for the fixed-cost scenario: iROAS quantiles are response quantiles divided by the cost, '
              'incremental-response bounds are iROAS bounds times the cost, unit changes multiply every figure by b/a, ordering for a '
-             'positive cost; a negative cost gives a negative scale (refuted: known finding). Executed on frames x six cost patterns x '
+             'positive cost; a negative cost gives a negative scale (refuted: known finding); the scenario decision is regenerated '
+             'from the source (gen/Gen_Scenario.v) and proved: label fixed iff |pre-period cost + control test-period cost| < 1e-10. Executed on frames x six cost patterns x '
              'levels x tails x thresholds: coherence with TBR.summary, scenario label, unit change (powers of two), determinism of the '
              'variable-cost report w.r.t. random_state. Open known findings: negative cost, one-tailed level < 1/2, variable-cost mean '
              'outside percentile bounds.',
-        note=TBR_NOTE + ' Variable-cost scenario (simulation) is tested only: partial.',
-        technique='Rocq/Coq proof (field identities over Q) + direct oracle on the implementation',
+        note=TBR_NOTE + ' Translator target scenario (pandas selections recognised by exact text; floor(log10) and -inf as oracles with stated premises). Variable-cost scenario (simulation) is tested only: partial.',
+        technique='Rocq/Coq proof (field identities over Q; source-regenerated scenario decision) + direct oracle on the implementation',
         ref='DESIGN.md section 5 C07'),
     'C18': dict(
         text='Coq theorems (props/C18.v): counterfactual + difference = observed, pre-period differences are the OLS residuals and sum '
